@@ -224,11 +224,25 @@ pub fn run(ctx: &Ctx) -> PropResult {
         };
         judge_date_pair(rec, d1, d2);
     }));
+    // call sequences: a pair, the reversed pair, pairs sharing one operand with a sibling of the other, the pair again
+    wls.push(Workload::cases("sibling_call_sequences", ctx.count(30_000, 1_000_000), |rec, _, rng| {
+        let (lo, hi) = (MIN_INSTANT + 3 * D, MAX_INSTANT - 3 * D);
+        let p = gen_pair(rng);
+        rec.bin("sequence/sibling-calls");
+        judge_pair(rec, &p);
+        judge_pair(rec, &Pair { i: p.j, j: p.i, o1: p.o2, o2: p.o1, class: p.class });
+        for _ in 0..2 {
+            let j2 = crate::model::magic::sibling_instant(rng, p.j, lo, hi);
+            judge_pair(rec, &Pair { i: p.i.clamp(lo, hi), j: j2, o1: p.o1, o2: p.o2, class: "pair/sibling-sequence" });
+        }
+        judge_pair(rec, &p);
+    }));
     wls.push(Workload::cases("offset_local_twins", ctx.count(3_000, 100_000), |rec, _, rng| super::localzone::twin_pair_case(rec, rng, "C06")));
     let out = run_workloads(ctx, wls);
     let mut meta = PropMeta::default();
     meta.rule = "The C03 pair generator (instants in 8 strata x deltas {0, ±1 ns, sub-second, k units ± few ns for each of the 7 units, days, 2^62 ns, uniform} x two independent offsets): each of the 7 DateTime::*_since must equal (i_a − i_b)/unit truncated toward zero in i128, be antisymmetric, and (for counts < 2^32 with a representable upper bound) satisfy b.add_u(n) <= a < b.add_u(n+1); duration_between must equal |i_a − i_b| both ways. Time pairs (6 units, stored nanoseconds) and Date pairs (days) likewise. Every pair is non-trivial (bins report the borrow / sub-unit / negative-path classes); distinct by input hash. Differences next to 'magic magnitudes' (2^15…2^64 of every unit from ns to weeks, ± jitter up to a day) and instants at such magnitudes from 0001-01-01 / 1970-01-01 are part of the pair generator. Offset::Local twins (pairs) for all seven *_since and duration_between.".into();
     meta.required_bins = vec![
+        "sequence/sibling-calls",
         "local-twin/judged", "local-twin/synthetic-fixed-zone", "local-twin/real-zone-with-transitions",
         "pair/equal-instant", "pair/straddles-0001-01-01", "pair/sub-second", "pair/straddles-midnight-within-24h",
         "seconds/remainder-borrow", "hours/remainder-borrow", "days/remainder-borrow", "minutes/below-one-unit", "millis/negative-days-path", "days/negative-days-path",
